@@ -471,10 +471,13 @@ def sm_sign(ctx):
         a, b = sol[0].args
         outerT = False
         for n in ast.walk(ci.node):
-            if isinstance(n, ast.Attribute) and n.attr == 'T' and n.value is sol[0]:
+            if isinstance(n, ast.Attribute) and n.attr in ('T', 'transpose') and \
+                    n.value is sol[0]:
                 outerT = True
-        innerT = isinstance(b, ast.Attribute) and b.attr == 'T'
-        inner = b.value if innerT else b
+        innerT = (isinstance(b, ast.Attribute) and b.attr == 'T') or (
+            isinstance(b, ast.Call) and isinstance(b.func, ast.Attribute) and
+            b.func.attr == 'transpose' and not b.args)
+        inner = (b.value if isinstance(b, ast.Attribute) else b.func.value) if innerT else b
         sub_ok = isinstance(inner, ast.BinOp) and isinstance(inner.op, ast.Sub) and \
             'self.bias' in norm_text(inner.right) and 'self.bias' not in norm_text(inner.left)
         ok = norm_text(a) == 'self.transform' and outerT and innerT and sub_ok
@@ -522,16 +525,8 @@ def sm_sign(ctx):
            why='get_estimates does not report transform - I')
     # SM-UNITS in Parameters.apply
     ap = pm.methods['apply']
-    branches = {}
-    for n in ast.walk(ap.node):
-        if isinstance(n, ast.If) and isinstance(n.test, ast.Compare) and \
-                isinstance(n.test.comparators[0], ast.Constant) and \
-                n.test.comparators[0].value in ('rate', 'increment'):
-            branches[n.test.comparators[0].value] = n.body
-            if len(n.orelse) == 1 and isinstance(n.orelse[0], ast.If) and \
-                    isinstance(n.orelse[0].test, ast.Compare) and \
-                    isinstance(n.orelse[0].test.comparators[0], ast.Constant):
-                branches[n.orelse[0].test.comparators[0].value] = n.orelse[0].body
+    from ..flow import const_arms
+    branches = const_arms(ap.node, ('rate', 'increment'))
     ctx.need(set(branches) >= {'rate', 'increment'}, 'Parameters.apply sensor-type branches '
              'not found')
     dtv = None
